@@ -213,11 +213,22 @@ def main(argv):
         by_sig.setdefault(sig, []).append(v)
     reported = []
     known_hit = {}
-    max_replays = spec.get('max_replays_per_sig', 3)
+    max_replays = spec.get('max_replays_per_sig', 8)
+
+    def fragility(v):
+        # counterexamples whose real inputs sit on the 1/64 lattice survive the conversion to binary64 exactly; models with values such
+        # as 50.00000000000003 (the solver's last resort when no lattice model exists in time) are tried last
+        m = v.get('model') or {}
+        bad = 0
+        for x in m.values():
+            if isinstance(x, float) and x == x and abs(x) < 1e15 and (x * 64) != int(x * 64):
+                bad += 1
+        return bad
     for sig, vs in sorted(by_sig.items()):
         reproduced = None
         tried = 0
         last_out = ''
+        vs = sorted(vs, key=fragility)
         for v in vs[: max_replays]:
             witness = mod.make_witness(v) if hasattr(mod, 'make_witness') else v
             path = write_replay(pid, witness)
